@@ -27,6 +27,9 @@ Definition src_get_bit_U64 : list effect :=
 Definition src_get_bit_U8 : list effect :=
   [ (Return (EToBool (EBin OAnd I32 (ECast I32 (EVar "bits")) (EShl I32 (ECast I32 (ECast U8 (ELit (1)))) (ECast I32 (EVar "n")))))) ].
 
+Definition src_is_within_size : list effect :=
+  [ (Return (ECond (ECmp CLe (EVar "size") (EVar "available")) (ECmp CLe (EVar "offset") (EBin OSub U64 (EVar "available") (EVar "size"))) (ELit (0)))) ].
+
 Definition src_it_add_assign_U16_U16 : list effect :=
   [ (PtrAdd "ptr" (EBin OMul I64 (ECast I64 (EVar "n")) (ECast I64 (EVar "block_length"))));
     (Store "index" (ECast U16 (EBin OAdd I32 (ECast I32 (EVar "index")) (ECast I32 (EVar "n"))))) ].
@@ -150,3 +153,6 @@ Definition src_set_bit_U64 : list effect :=
 
 Definition src_set_bit_U8 : list effect :=
   [ (Store "bits" (ECast U8 (EBin OOr I32 (EBin OAnd I32 (ECast I32 (EVar "bits")) (ENot I32 (EShl I32 (ECast I32 (ECast U8 (ELit (1)))) (ECast I32 (EVar "n"))))) (EShl I32 (ECast I32 (ECast U8 (EVar "b"))) (ECast I32 (EVar "n")))))) ].
+
+Definition src_size_check_macro : list effect :=
+  [ (Assert (ECond (ECond (EToBool (EVar "begin")) (ECmp CLe (EVar "begin") (EVar "end")) (ELit (0))) (ECond (ECmp CLe (EVar "size") (ECast U64 (EBin OSub I64 (EVar "end") (EVar "begin")))) (ECmp CLe (EVar "offset") (EBin OSub U64 (ECast U64 (EBin OSub I64 (EVar "end") (EVar "begin"))) (EVar "size"))) (ELit (0))) (ELit (0)))) ].
